@@ -25,7 +25,17 @@ def pool():
         multiprocessing.current_process()._config["daemon"] = False  # pylint: disable=protected-access
         ctx = multiprocessing.get_context("forkserver")
         ctx.set_forkserver_preload(["formulae", "numpy", "pandas", "vf.fresh_tasks"])
-        _POOL = ctx.Pool(processes=int(os.environ.get("VERIF_FRESH_PROCS", "2")), initializer=_init, maxtasksperchild=1)
+        # the fork server is a new interpreter: it (and every fresh child) hashes strings with another seed than this
+        # process, so a result that depends on set / dict-of-set iteration order differs from the one computed here
+        before = os.environ.get("PYTHONHASHSEED")
+        os.environ["PYTHONHASHSEED"] = "4242"
+        try:
+            _POOL = ctx.Pool(processes=int(os.environ.get("VERIF_FRESH_PROCS", "2")), initializer=_init, maxtasksperchild=1)
+        finally:
+            if before is None:
+                os.environ.pop("PYTHONHASHSEED", None)
+            else:
+                os.environ["PYTHONHASHSEED"] = before
     return _POOL
 
 
